@@ -38,6 +38,8 @@ def drive_case(bins, case, idx):
         if case["customdirs"]:
             t["argmaps"] = {"path": tp + "/cfg/maps"}
             t["commands"] = {"path": "tools/cmd" if case.get("shareddir") else tp + "/scripts"}
+        if ti == 0 and case.get("deps"):
+            t["uses"] = ["svc2/src.txt"]
         if ti == 0 and case["resolve"] == "defpath":
             t.setdefault("commands", {})["definitions"] = {"build": {"path": "svc/tools/run-build"}}
         if ti == 0 and case["resolve"] == "def_nopath":
@@ -99,6 +101,8 @@ def drive_case(bins, case, idx):
         if single:
             cli_args = [tok("arg", 0, "A"), tok("arg", 1, "A")]
             args += ["-t", "svc", "-a"] + cli_args
+        if case.get("deps"):
+            args += ["-t", "svc", "--deps"]
         fx.reset_helper()
         res = fx.monorail(args)
         evs = fx.events()
